@@ -1,8 +1,9 @@
-import PysphVerif.Lemmas.DumpLoadNpz
+import PysphVerif.Lemmas.DumpLoadV1
 /-!
 # C11 — saved output loads back to the same particles and solver data
 
-Property theorems only (helper lemmas live in `Lemmas/DumpLoad.lean`).  They
+Property theorems only (helper lemmas live in `Lemmas/DumpLoad.lean`,
+`Lemmas/DumpLoadNpz.lean`, `Lemmas/DumpLoadMany.lean`, `Lemmas/DumpLoadV1.lean`).  They
 are about `Model/DumpLoad.lean`, which transcribes the two writers, the three
 readers and the `ParticleArray` construction they drive, and is tied to the
 code by executing `load(dump(...))` on real files.
@@ -172,6 +173,82 @@ theorem compress_irrelevant (fmt : Fmt) (o : Opts) (arrays : List (PArr V)) (sd 
     dump fmt { o with compress := true } arrays sd = dump fmt { o with compress := false } arrays sd := by
   cases fmt <;> rfl
 
+/-! ## files holding several arrays -/
+
+/-- `load(dump(arrays))` through an hdf5 file, for ANY list of well-formed arrays
+with distinct names: the load succeeds and returns the arrays in NAME order (the
+reader walks the h5 group sorted) — the loaded list is, entry by entry, the
+name-sorted source list with every array replaced by a `RoundTrip` of it.
+Consequently the keys are a permutation of the source names, nothing is lost or
+added, and every source array is found under its name. -/
+theorem hdf5_roundtrip_many (arrays : List (PArr V)) (hwf : ∀ pa ∈ arrays, WF pa)
+    (hnd : (arrays.map (·.name)).Nodup) (o : Opts) (sd : List (String × S)) :
+    ∃ f qs, dump .hdf5 o arrays sd = some f ∧ load f = .ok (sortByName sd, qs) ∧
+      List.Forall₂ (fun e r => r.1 = e.1 ∧ RoundTrip o e.2 r.2)
+        (sortByName (arrays.map (fun pa => (pa.name, pa)))) qs ∧
+      (qs.map (·.1)).Perm (arrays.map (·.name)) ∧ qs.length = arrays.length ∧
+      (∀ pa ∈ arrays, ∃ q, (pa.name, q) ∈ qs ∧ RoundTrip o pa q) := by
+  obtain ⟨hg, qs, hl, hqs⟩ := loadH5_many arrays hwf hnd o sd
+  exact ⟨_, qs, dumpHdf5_many o arrays hg hnd sd, hl, hqs,
+    sorted_forall2_members arrays (RoundTrip o) qs hqs⟩
+
+/-- `load(dump(arrays))` through an npz file, for ANY list of well-formed arrays
+with distinct names: the load succeeds, the solver data is untouched and the
+loaded dictionary lists the arrays in DUMP order, each one a `RoundTrip` of its
+source with the constants in their original order and `num_real_particles`
+equal to the number of `Local` tags. -/
+theorem npz_roundtrip_many (arrays : List (PArr V)) (hwf : ∀ pa ∈ arrays, WF pa)
+    (hnd : (arrays.map (·.name)).Nodup) (o : Opts) (sd : List (String × S)) :
+    ∃ f qs, dump .npz o arrays sd = some f ∧ load f = .ok (sd, qs) ∧
+      qs.map (·.1) = arrays.map (·.name) ∧
+      List.Forall₂ (fun pa e => e.1 = pa.name ∧ RoundTrip o pa e.2 ∧ e.2.consts = pa.consts ∧
+        (∀ t ∈ e.2.props, t.name = "tag" → e.2.nReal = countLocal t.data)) arrays qs := by
+  obtain ⟨hg, qs, hl, hqs⟩ := loadNpz_many arrays hwf hnd o sd
+  exact ⟨_, qs, dumpNpz_many o arrays hg hnd sd, hl,
+    forall2_map_eq (fun pa : PArr V => pa.name) (fun e : String × PArr V => e.1) hqs
+      (fun _ _ h => h.1), hqs⟩
+
+/-! ## version-1 npz files -/
+
+/-- The version-1 reader (`get_particle_array(name=…, **arrays)`) returns what
+`dump_v1` wrote, for every well-formed source array whose STORED properties all
+have stride 1 (the format has no place for a stride: with a strided stored
+property and at least one particle the reader raises, see the example below).
+`V1Loaded`: every stored property comes back under its name with exactly the
+stored slice as data; all sixteen default properties exist; nothing else
+appears; C type, stride (1) and default of every loaded property are functions
+of its NAME (`v1CType`, `v1Dflt` — the source's are not in the file); there are
+no constants; the output list is the fixed `v1OutArrs`; all loaded properties
+have one common length (0 or the stored particle count); `num_real_particles`
+is the number of `Local` tags. -/
+theorem v1_loads (pa : PArr V) (hwf : WF pa) (o : Opts) (sd : List (String × S))
+    (hs1 : ∀ p ∈ pa.props, p.name ∈ storedNames pa o.detailed → p.stride = 1) :
+    ∃ f q, dumpV1 o [pa] sd = some f ∧ load f = .ok (sd, [(pa.name, q)]) ∧ V1Loaded o pa q := by
+  obtain ⟨hg, qs, hl, hqs⟩ := loadV1_many [pa] (by simpa using hwf) (by simp) o sd
+    (by simpa using hs1)
+  have hd := dumpV1_many o [pa] hg (by simp) sd
+  cases hqs with
+  | cons h ht =>
+    cases ht
+    rename_i e
+    obtain ⟨h1, h2⟩ := h
+    have he : e = (pa.name, e.2) := by rw [← h1]
+    rw [he] at hl
+    exact ⟨_, e.2, hd, hl, h2⟩
+
+/-- the same for a version-1 file holding any list of arrays with distinct
+names: they come back in dump order, solver data untouched -/
+theorem v1_loads_many (arrays : List (PArr V)) (hwf : ∀ pa ∈ arrays, WF pa)
+    (hnd : (arrays.map (·.name)).Nodup) (o : Opts) (sd : List (String × S))
+    (hs1 : ∀ pa ∈ arrays, ∀ p ∈ pa.props, p.name ∈ storedNames pa o.detailed → p.stride = 1) :
+    ∃ f qs, dumpV1 o arrays sd = some f ∧ load f = .ok (sd, qs) ∧
+      qs.map (·.1) = arrays.map (·.name) ∧
+      List.Forall₂ (fun pa e => e.1 = pa.name ∧ V1Loaded o pa e.2) arrays qs := by
+  obtain ⟨hg, qs, hl, hqs⟩ := loadV1_many arrays hwf hnd o sd hs1
+  exact ⟨_, qs, dumpV1_many o arrays hg hnd sd, hl,
+    forall2_map_eq (fun pa : PArr V => pa.name) (fun e : String × PArr V => e.1) hqs
+      (fun _ _ h => h.1), hqs⟩
+
 /-! ## solver data -/
 
 /-- whenever a written file loads, the solver data that comes back is the
@@ -239,6 +316,79 @@ example : okOf ((dump .hdf5 ⟨false, true, false⟩ [exArr] [("t", 1)]).map loa
                   ⟨"A", .double, 2, 7, [1, 2, 3, 4]⟩, ⟨"k", .int, 1, 7, [7, 7]⟩,
                   ⟨"x", .double, 1, 0, [5, 6]⟩],
         consts := [⟨"c", .double, [1, 2]⟩], outArrs := ["x", "A"], nReal := 2 })])) := by
+  decide +kernel
+
+/-- a second array for the same file: other name, empty output list (so every
+property is written) -/
+def exArrB : PArr Nat := { exArr with name := "b", outArrs := [] }
+
+example : (∀ pa ∈ [exArr, exArrB], WF pa) ∧ ([exArr, exArrB].map (·.name)).Nodup := by
+  refine ⟨?_, by decide⟩
+  intro pa hpa
+  simp only [List.mem_cons, List.not_mem_nil, or_false] at hpa
+  rcases hpa with rfl | rfl <;>
+  · refine { nodup := by decide, hasBase := ?_, baseMeta := by decide, stridePos := by decide,
+             coh := by decide, nreal := by decide, aligned := by decide, outSub := by decide,
+             constsNodup := by decide, constsDisj := by decide, constsTy := by decide }
+    intro n hn
+    rcases hn with e | e | e <;> subst e <;> decide
+
+/-- two arrays dumped as `[f, b]` to hdf5 come back as `[b, f]` (name order);
+`b` had every property written, `f` only `x` and `A` -/
+example : okOf ((dump .hdf5 ⟨false, true, false⟩ [exArr, exArrB] [("t", 1)]).map load) =
+    some (([("t", 1)], [("b",
+      { name := "b",
+        props := [⟨"tag", .int, 1, 0, [0, 0]⟩, ⟨"pid", .int, 1, 0, [0, 0]⟩,
+                  ⟨"gid", .uint, 1, 4294967295, [1, 2]⟩,
+                  ⟨"A", .double, 2, 7, [1, 2, 3, 4]⟩, ⟨"k", .int, 1, 7, [1, 1]⟩,
+                  ⟨"x", .double, 1, 0, [5, 6]⟩],
+        consts := [⟨"c", .double, [1, 2]⟩], outArrs := [], nReal := 2 }), ("f",
+      { name := "f",
+        props := [⟨"tag", .int, 1, 0, [0, 0]⟩, ⟨"pid", .int, 1, 0, [0, 0]⟩,
+                  ⟨"gid", .uint, 1, 4294967295, [4294967295, 4294967295]⟩,
+                  ⟨"A", .double, 2, 7, [1, 2, 3, 4]⟩, ⟨"k", .int, 1, 7, [7, 7]⟩,
+                  ⟨"x", .double, 1, 0, [5, 6]⟩],
+        consts := [⟨"c", .double, [1, 2]⟩], outArrs := ["x", "A"], nReal := 2 })])) := by
+  decide +kernel
+
+/-- through npz the same two arrays keep the dump order -/
+example : (okOf ((dump .npz ⟨false, false, false⟩ [exArr, exArrB] [("t", 1)]).map load)).map
+    (fun r => r.2.map (·.1)) = some ["f", "b"] := by
+  decide +kernel
+
+/-- an array whose stored properties (`x`, `k`, `tag`) all have stride 1 -/
+def exArrV1 : PArr Nat := { exArr with outArrs := ["x", "k", "tag"] }
+
+example : WF exArrV1 ∧
+    ∀ p ∈ exArrV1.props, p.name ∈ storedNames exArrV1 false → p.stride = 1 := by
+  refine ⟨{ nodup := by decide, hasBase := ?_, baseMeta := by decide, stridePos := by decide,
+            coh := by decide, nreal := by decide, aligned := by decide, outSub := by decide,
+            constsNodup := by decide, constsDisj := by decide, constsTy := by decide },
+          by decide⟩
+  intro n hn
+  rcases hn with e | e | e <;> subst e <;> decide
+
+/-- version 1: `x`, `k`, `tag` come back with their values; `k` (int, default 7
+in the source) is now double with default 0; `gid`/`pid` and the other default
+properties are filled in; the strided `A` and the constant `c` are gone -/
+example : okOf ((dumpV1 ⟨false, false, false⟩ [exArrV1] [("t", 1)]).map load) =
+    some (([("t", 1)], [("f",
+      { name := "f",
+        props := [⟨"tag", .int, 1, 0, [0, 0, 2]⟩, ⟨"pid", .int, 1, 0, [0, 0, 0]⟩,
+                  ⟨"gid", .uint, 1, 4294967295, [4294967295, 4294967295, 4294967295]⟩,
+                  ⟨"x", .double, 1, 0, [5, 6, 7]⟩, ⟨"k", .double, 1, 0, [1, 1, 1]⟩,
+                  ⟨"y", .double, 1, 0, [0, 0, 0]⟩, ⟨"z", .double, 1, 0, [0, 0, 0]⟩,
+                  ⟨"u", .double, 1, 0, [0, 0, 0]⟩, ⟨"v", .double, 1, 0, [0, 0, 0]⟩,
+                  ⟨"w", .double, 1, 0, [0, 0, 0]⟩, ⟨"m", .double, 1, 0, [0, 0, 0]⟩,
+                  ⟨"h", .double, 1, 0, [0, 0, 0]⟩, ⟨"rho", .double, 1, 0, [0, 0, 0]⟩,
+                  ⟨"p", .double, 1, 0, [0, 0, 0]⟩, ⟨"au", .double, 1, 0, [0, 0, 0]⟩,
+                  ⟨"av", .double, 1, 0, [0, 0, 0]⟩, ⟨"aw", .double, 1, 0, [0, 0, 0]⟩],
+        consts := [], outArrs := v1OutArrs, nReal := 2 })])) := by
+  decide +kernel
+
+/-- why `v1_loads` asks for stride 1: with the strided `A` among the stored
+properties (3 particles) the version-1 reader raises (`ValueError`, sizes) -/
+example : okOf ((dumpV1 ⟨false, false, false⟩ [exArr] [("t", 1)]).map load) = none := by
   decide +kernel
 
 end PysphVerif.C11
